@@ -200,6 +200,8 @@ pub struct Obj {
     pub rec_reported: bool,
     pub res_used: bool,
     pub lost_ptr: bool,
+    /// API call in which a `Weak::upgrade` to this object last succeeded
+    pub upgraded_call: u64,
     pub first_trace_call: u64,
     pub unbuffer_ops: u32,
     pub manual_cleans: u32,
@@ -1138,6 +1140,11 @@ impl Drop for Node {
                 if o_res {
                     props.push("C06");
                 }
+                if w.objs[oid as usize].upgraded_call == w.call && w.call != 0 {
+                    // a callback of this very call was handed a Cc by Weak::upgrade although the
+                    // destruction of the value was under way (or about to start in the same batch)
+                    props.push("C08");
+                }
                 w.violation(&props, "drop-on-reachable", sig, d, false);
             }
             if o_uninit || o_never {
@@ -1329,6 +1336,7 @@ pub fn new_obj(w: &mut World, spec: Spec) -> Oid {
         rec_reported: false,
         res_used: false,
         lost_ptr: false,
+        upgraded_call: 0,
         first_trace_call: 0,
         unbuffer_ops: 0,
         manual_cleans: 0,
